@@ -309,8 +309,8 @@ theorem iblt_small_table_hangs_unfixed (H : Iblt.Hash) (n k : Nat) (hn : n ≠ 0
    fun fuel => chainOld_zero_buckets_panics H k (by omega) fuel _⟩
 
 /-- non-vacuity: with the real murmur3 the repaired bucketIndices gives 6 distinct buckets for an ordinary hash and for the
-    fixed point's chain (linear probing from bucket 455) -/
-example : Iblt.chainPhase Murmur.hash 1024 6 64 4101757383 0 [] = .ok ([455], 455) := by decide
+    fixed point's chain (the chain phase, here cut to 4 steps, stays at bucket 455; linear probing from there finds the rest) -/
+example : Iblt.chainPhase Murmur.hash 1024 6 4 4101757383 0 [] = .ok ([455], 455) := by decide
 example : Iblt.probePhase 1024 6 455 1023 1 [455] = .ok [455, 456, 457, 458, 459, 460] := by decide
 
 /-! ### auth/api/iam/openid4vp.go: withCallbackURI -/
